@@ -50,6 +50,13 @@ def make_instance(rng, herm=True, max_order=3, interleaved=False):
         try:
             inst = hermitian.gen_instance(rng, d=d, sizes=sizes, k=k, N=N, vtype=vt, fdkind="none", shuffle=False,
                                           hermitian=herm, basis="unitary" if herm else "pairs", complex_=cx)
+            if not herm:
+                # float LU solves in a non-orthogonal basis lose about cond(M) * order digits: the sparse solves of a
+                # basis with cond_inf ~ 2000 were 1.01e-9 off an exact third-order value (tolerance 1e-9; thorough
+                # tier, a false alarm of rounding).  Keep the bases well conditioned.
+                M_ = hermitian.to_numpy(inst["basis"]["M"], force_complex=True)
+                if np.linalg.norm(M_, np.inf) * np.linalg.norm(np.linalg.inv(M_), np.inf) > 150:
+                    continue
             break
         except Regenerate:
             continue
